@@ -31,6 +31,7 @@ var knownFuncsTxt string
 
 var knownFuncs map[string]bool
 var knownSigs map[string]string
+var knownCallers map[string][]string
 
 var theProgram *Program
 
@@ -53,6 +54,12 @@ func knownFunc(key string) bool {
 						knownParams = map[string][]string{}
 					}
 					knownParams[l[:k]] = strings.Split(rest[1], ",")
+				}
+				if len(rest) > 2 && rest[2] != "" {
+					if knownCallers == nil {
+						knownCallers = map[string][]string{}
+					}
+					knownCallers[l[:k]] = strings.Split(rest[2], ";")
 				}
 			} else {
 				knownFuncs[l] = true
